@@ -603,6 +603,27 @@ def search_rounds(ctx, broken, seeds):
                         return {"input": {"op": "relaxed", "hasher": name, "kwds": {key: v}}, "observed": "ValueError " + str(e), "expected": clamp}
         if snapshot(h) != before:
             return {"input": {"op": "isolation", "hasher": name}, "observed": "original hasher's attributes changed", "expected": "unchanged"}
+    # bsdi_crypt writes odd costs only: inside a window whose upper end is odd there is always an odd cost at or above the lower end, so the
+    # generated cost stays inside the window and the hasher's own update check accepts it (an even upper end is the recorded C04 finding)
+    h = registry.get_crypt_handler("bsdi_crypt")
+    for _ in range(80 if not ctx.thorough else 600):
+        a = rng.choice([rng.randrange(1, 3000), 2 * rng.randrange(1, 1500), 6000, 5002])
+        b = a + rng.choice([0, 1, 2, 3, 50, 51])
+        if b % 2 == 0:
+            b += 1
+        dflt = rng.choice([a, b, rng.randrange(a, b + 1)])
+        for kw in (dict(min_rounds=a, max_rounds=b, default_rounds=dflt), dict(min_rounds=a, max_rounds=b), dict(min_rounds=a), dict(min_rounds=a, max_rounds=b, default_rounds=dflt, vary_rounds=rng.choice([1, 3, 0.1]))):
+            try:
+                sub = h.using(**kw)
+                hs = sub.hash("pw")
+                r = sub.from_string(hs).rounds
+                lo_eff, hi_eff = a, (b if "max_rounds" in kw else h.max_rounds)
+                ok = lo_eff <= r <= hi_eff and r % 2 == 1 and not sub.needs_update(hs) and sub.verify("pw", hs)
+                obs = {"hash": hs, "rounds": r, "needs_update": sub.needs_update(hs)}
+            except Exception as e:  # noqa: BLE001
+                ok, obs = False, errname(e) + ": " + str(e)[:80]
+            if not ok:
+                return {"input": {"op": "using-hash", "hasher": "bsdi_crypt", "kwds": kw}, "observed": obs, "expected": "an odd cost inside [min,max], not flagged by its own update check"}
     return None
 
 
